@@ -64,11 +64,15 @@ CHECK_DEADLOCK FALSE
 
 def run_c18(v):
     quick = v.tier == "quick"
-    mc = lib.tlc_mc("MC_Collapse.tla", _cfg("MC_Collapse_run.cfg", MC_COLLAPSE.format(hits=6, variant="ideal", mod=97 if quick else 23)),
+    mc = lib.tlc_mc("MC_Collapse.tla", _cfg("MC_Collapse_run.cfg", MC_COLLAPSE.format(hits=5 if quick else 6, variant="ideal", mod=23)),
                     timeout=3000, coverage=False)
     lib.require_mc_ok(mc, "MC_Collapse")
-    for variant, inv in (("arrival", "Best"), ("offbyone", "WindowLaw")):
-        r = lib.tlc_mc("MC_Collapse.tla", _cfg(f"MC_Collapse_{variant}_run.cfg", MC_COLLAPSE.format(hits=4, variant=variant, mod=0)),
+    r = lib.tlc_mc("MC_Collapse.tla", _cfg("MC_Collapse_prefix_run.cfg", MC_COLLAPSE.format(hits=5 if quick else 6, variant="prefix", mod=0).replace("INVARIANT Partition\nINVARIANT WindowLaw\n", "")),
+                   timeout=1200, coverage=False)
+    lib.require_mc_ok(r, "MC_Collapse on an exact prefix of the ranking")
+    for variant, inv in (("arrival", "Best"), ("offbyone", "WindowLaw"), ("segcand", "Best")):
+        r = lib.tlc_mc("MC_Collapse.tla", _cfg(f"MC_Collapse_{variant}_run.cfg", MC_COLLAPSE.format(hits=5 if variant == "segcand" else 4, variant=variant, mod=0)
+                            .replace("INVARIANT Partition\nINVARIANT WindowLaw\n", "INVARIANT Partition\n" + ("" if variant == "segcand" else "INVARIANT WindowLaw\n"))),
                        timeout=1200, coverage=False)
         lib.expect_mc_violation(r, f"MC_Collapse variant {variant}", {inv})
     cases = lib.outpath(v.prop, "collapse-cases.ndjson")
@@ -82,8 +86,8 @@ def run_c18(v):
         "traces_validated_against_impl": s1["scenarios"] + s2["scenarios"],
         "requests_judged": s1["requests"] + s2["requests"],
         "cases_generated_by_tlc": n_cases, "cases_replayed": s1["requests"],
-        "mc_bounds": "every ranked list of <=6 hits in groups 0..3 (0 = no value) x inner sort same/other x from 0..2 x size none/0..3",
-        "broken_variants_refuted_by_model": ["arrival", "offbyone"],
+        "mc_bounds": f"every ranked list of <={5 if quick else 6} hits in groups 0..3 (0 = no value) x inner sort same/other x from 0..2 x size none/0..3",
+        "broken_variants_refuted_by_model": ["arrival", "offbyone", "segcand (as-built candidate list, S18a)"],
         "samples": s2["samples"], "exhaustive": False,
     })
     v.assumptions += [
